@@ -149,6 +149,8 @@ def parseField (s : String) : Field :=
       | "t" => .table (a 0 % 16)
       | "tv" => .tableVector (a 0 % 16)
       | "u" => .union (a 0 % 16)
+      | "nt" => .nestedTable (a 0 % 16) (a 1)
+      | "ns" => .nestedStruct (a 0) (a 1)
       | _ => .unionVector (a 0 % 16)
     { id := natArg id, required := natArg req != 0, kind := k }
   | _ => { id := 0, required := false, kind := .string }
